@@ -483,6 +483,47 @@ func (g *c11Gen) stmts(m *c11Method, depth int, cs []*c11Method, n int) []c11Tok
 	return out
 }
 
+// chain builds a dependency chain that the parser can only resolve in 3 (deep=false) or 4 (deep=true)
+// merge/relocate passes: a Scope directive into an object that arrives by relocation, into which the next
+// object arrives by a Scope merge, ... with the last user wrapped in a Scope on a predefined scope (merged
+// into a block that is visited before the table's own objects).  Every target is declared before its use,
+// no ^ is written inside an object's scope or under a late directive, no path runs through an object.
+func (g *c11Gen) chain(deep bool) []*c11Node {
+	abs := func(p ...string) *c11Form { return &c11Form{Abs: true, Segs: p} }
+	seg := func(s string) *c11Form { return &c11Form{Segs: []string{s}} }
+	sc := func(f *c11Form, kids ...*c11Node) *c11Node {
+		return &c11Node{tok: c11Tok{K: "scope", F: f, W: g.width()}, blk: true, kids: kids}
+	}
+	dev := func(f *c11Form, p []string, kids ...*c11Node) *c11Node {
+		g.scopes = append(g.scopes, c11Scope{path: p, object: true, table: g.table})
+		g.displaced[c11Key(p)] = true
+		return &c11Node{tok: c11Tok{K: "open", Kind: "Device", F: f, W: g.width()}, blk: true, kids: kids}
+	}
+	leaf := func(cur []string) *c11Node {
+		n := g.fresh()
+		g.names = append(g.names, c11Scope{path: c11Cat(cur, n), table: g.table})
+		g.displaced[c11Key(c11Cat(cur, n))] = true
+		return &c11Node{tok: c11Tok{K: "decl", Kind: "Name", F: seg(n), Args: []c11Term{g.constTerm()}}}
+	}
+	i := g.rng.Intn(len(c11Predef) - 1)
+	early, lateP := c11Predef[i], c11Predef[i+1+g.rng.Intn(len(c11Predef)-1-i)]
+	any := c11Predef[g.rng.Intn(len(c11Predef))]
+	a, b, c := g.fresh(), g.fresh(), g.fresh()
+	if !deep {
+		return []*c11Node{
+			sc(abs(lateP), dev(&c11Form{Carets: 1, Segs: []string{a}}, []string{a})),
+			sc(abs(a), dev(seg(b), []string{a, b})),
+			sc(abs(any), sc(abs(a), sc(seg(b), leaf([]string{a, b})))),
+		}
+	}
+	return []*c11Node{
+		sc(abs(lateP), dev(&c11Form{Carets: 1, Segs: []string{a}}, []string{a})),
+		sc(abs(early), dev(abs(a, b), []string{a, b})),
+		sc(abs(a), sc(seg(b), dev(seg(c), []string{a, b, c}))),
+		sc(abs(early), sc(abs(a), sc(seg(b), sc(seg(c), leaf([]string{a, b, c}))))),
+	}
+}
+
 func c11Flatten(nodes []*c11Node, out *[]c11Tok) {
 	for _, n := range nodes {
 		*out = append(*out, n.tok)
@@ -510,6 +551,9 @@ func c11RandomProgram(seed int64, open map[string]bool) []c11Tok {
 		g.displaced = map[string]bool{}
 		g.budget = total / ntab
 		var top []*c11Node
+		if k := g.rng.Intn(10); k < 3 {
+			top = append(top, g.chain(k == 0)...)
+		}
 		for g.budget > 0 {
 			top = append(top, g.level(nil, 0, false, false, 2+g.rng.Intn(8))...)
 		}
